@@ -1,15 +1,24 @@
 (* C16 — COV subscribers are told of every qualifying change, and only while subscribed.
-   Property theorems over the model Bac.Cov (the code after the two C16 `fix:` commits);
-   proofs live in Bac.CovFacts / Bac.CovRun.  `inv` is the reachable-state invariant
+   Property theorems over the model Bac.Cov (the code after the four C16 `fix:` commits), in which the
+   deferred-function queue is a state component: `Write`, `SubscribeNow`, `CancelNow`, `ReadNow` leave it alone,
+   `StepQ` runs its head, `Drain` all of it, `Subscribe`/`Cancel`/`ReadActive` = Drain; request; Drain.
+   Proofs live in Bac.CovFacts / Bac.CovRun / Bac.CovQueue.  `inv` is the reachable-state invariant
    (no two table entries with one key; object identifiers distinct; every entry unexpired),
    `wf_ev` says lifetimes are unsigned and time does not run backwards. *)
-From Bac Require Import Base Cov CovFacts CovRun.
+From Bac Require Import Base Cov CovFacts CovRun CovQueue.
 Open Scope Z_scope.
 
-(* every state reachable from a device with distinct object identifiers satisfies the invariant *)
+(* every state reachable from a device with distinct object identifiers, by ANY interleaving of well-formed events,
+   satisfies the three invariants: table (one entry per key, every entry unexpired), identities of Subscription
+   objects unique, deferred queue consistent with the trigger flags *)
 Theorem C16_reachable_inv : forall os es, NoDup (oids os) -> Forall wf_ev es -> inv (fst (run (init os) es)).
 Proof. exact (fun os es Ho Hw => run_inv es (init os) (init_inv os Ho) Hw). Qed.
 Print Assumptions C16_reachable_inv.
+
+Theorem C16_reachable_all : forall es s, inv s -> idinv s -> qinv s -> Forall wf_ev es ->
+  let s' := fst (run s es) in inv s' /\ idinv s' /\ qinv s'.
+Proof. exact run_q. Qed.
+Print Assumptions C16_reachable_all.
 
 (* a re-subscription replaces: at most one table entry per (client, process, object), whatever the history *)
 Theorem C16_table_nodup : forall os es, NoDup (oids os) -> Forall wf_ev es ->
@@ -21,10 +30,11 @@ Print Assumptions C16_table_nodup.
    lifetime, re-timed to now + lifetime (absent or 0 = no expiry), and an initial notification in the
    requested mode with the current values and the full lifetime as time remaining *)
 Theorem C16_subscribe_ack_initial : forall s c p o cf life s' out ob,
-  inv s -> wf_ev (Subscribe c p o cf life) -> step s (Subscribe c p o cf life) = (s', out) ->
+  inv s -> idinv s -> wf_ev (Subscribe c p o cf life) -> step s (Subscribe c p o cf life) = (s', out) ->
   find_obj o (objs s) = Some ob -> okind ob <> KNoCov ->
   o_ack out = 1 /\
   In (mkNtf c p o cf (life_of life) (pv ob) (fl ob) (now s)) (o_ntfs out) /\
+  queue s' = [] /\
   exists x, find_sub c p o (subs s') = Some x /\ s_conf x = cf /\ s_life x = life_of life /\
     (life_of life = 0 -> s_task x = None) /\
     (0 < life_of life -> exists k, s_task x = Some (now s + life_of life * TICKS, k)).
@@ -59,16 +69,59 @@ Theorem C16_burst_coalesces : forall o p v, trig o = true ->
 Proof. exact write_triggered. Qed.
 Print Assumptions C16_burst_coalesces.
 
-(* per deferred round: every subscription of a triggered object gets the notification with the current
-   values, nobody else gets one, nobody gets two, and the round ends with no trigger pending *)
-Theorem C16_one_per_qualifying_change : forall s s' out, inv s -> step s Drain = (s', out) ->
-  (forall x o, In x (subs s) -> find_obj (s_oid x) (objs s) = Some o ->
-     (trig o = true -> In (mk_ntf (now s) o x) (o_ntfs out)) /\
-     (trig o = false -> forall n, In n (o_ntfs out) -> nkey n <> key x)) /\
+(* one _execute = one notification round: when the pending _execute of the live detection instance of object o
+   runs (StepQ, at any point of any interleaving), every subscription the object has at that moment gets exactly
+   one notification with the then-current values, nobody else gets anything, the trigger is cleared and the
+   reported value becomes the reference *)
+Theorem C16_one_per_qualifying_change : forall s o g r ob s' out, inv s -> queue s = DExec o g :: r ->
+  find_obj o (objs s) = Some ob -> bound ob = true -> gen ob = g ->
+  step s StepQ = (s', out) ->
+  o_ntfs out = map (mk_ntf (now s) ob) (subs_of o (subs s)) /\
   NoDup (map nkey (o_ntfs out)) /\
-  (forall o, In o (objs s') -> trig o = false) /\ subs s' = subs s.
-Proof. exact drain_round. Qed.
+  (forall x, In x (subs s) -> s_oid x = o -> In (mk_ntf (now s) ob x) (o_ntfs out)) /\
+  (forall n, In n (o_ntfs out) -> n_oid n = o /\ n_pv n = pv ob /\ n_fl n = fl ob) /\
+  queue s' = r /\ subs s' = subs s /\
+  exists ob', find_obj o (objs s') = Some ob' /\ trig ob' = false /\ pv ob' = pv ob /\
+    (reports_prev (okind ob) = true -> prev ob' = Some (pv ob)).
+Proof. exact execute_step. Qed.
 Print Assumptions C16_one_per_qualifying_change.
+
+(* ... and in every reachable state (qinv) a triggered detection has exactly one such _execute pending, an
+   untriggered one none (bursts coalesce at the queue, whatever is interleaved), and an empty queue means that
+   nothing is triggered *)
+Theorem C16_pending_execute : forall s ob, qinv s -> In ob (objs s) ->
+  (bound ob = true -> trig ob = true -> In (DExec (oid ob) (gen ob)) (queue s)) /\
+  (bound ob = true -> (cnt (DExec (oid ob) (gen ob)) (queue s) <= 1)%nat) /\
+  (bound ob = true -> In (DExec (oid ob) (gen ob)) (queue s) -> trig ob = true) /\
+  (queue s = [] -> trig ob = false).
+Proof. exact pending_execute. Qed.
+Print Assumptions C16_pending_execute.
+
+(* a write enqueues the _execute exactly when it sets the trigger *)
+Theorem C16_write_enqueues : forall s i p v o s' out, nth_error (objs s) i = Some o -> has_prop (okind o) p = true ->
+  step s (Write i p v) = (s', out) ->
+  queue s' = (if negb (trig o) && trig (write_obj o p v) then queue s ++ [DExec (oid o) (gen o)] else queue s) /\
+  (trig o = true -> queue s' = queue s) /\ o_ntfs out = [] /\ subs s' = subs s.
+Proof. exact write_enqueues. Qed.
+Print Assumptions C16_write_enqueues.
+
+(* the _execute of a detection instance that was unbound meanwhile (last subscription cancelled or expired, perhaps
+   re-created since) reaches nobody *)
+Theorem C16_stale_execute : forall s o g r s' out, queue s = DExec o g :: r ->
+  (forall ob, find_obj o (objs s) = Some ob -> bound ob = false \/ gen ob <> g) ->
+  step s StepQ = (s', out) -> o_ntfs out = [] /\ s' = set_queue s r.
+Proof. exact stale_execute_step. Qed.
+Print Assumptions C16_stale_execute.
+
+(* the deferred initial notification goes to that Subscription object if it is still in the table and is dropped
+   otherwise (fix C16-F4) *)
+Theorem C16_initial_step : forall s i r s' out, queue s = DInit i :: r -> step s StepQ = (s', out) ->
+  match find_id i (subs s) with
+  | Some x => forall ob, find_obj (s_oid x) (objs s) = Some ob -> o_ntfs out = [mk_ntf (now s) ob x]
+  | None => o_ntfs out = [] /\ s' = set_queue s r
+  end.
+Proof. exact initial_step. Qed.
+Print Assumptions C16_initial_step.
 
 (* every notification of every event: addressed to a table entry (or the subscription just made), in that
    entry's mode, emitted no later than its expiry instant, time remaining = max 1 (whole seconds left), 0 iff
@@ -84,11 +137,12 @@ Theorem C16_time_remaining : forall s e s' out n,
 Proof. exact notification_content. Qed.
 Print Assumptions C16_time_remaining.
 
-(* after an acknowledged cancellation nothing is sent to that subscriber until it subscribes again *)
-Theorem C16_no_notify_after_cancel : forall s c p o s' out es,
-  inv s -> step s (Cancel c p o) = (s', out) -> o_ack out = 1 ->
-  Forall wf_ev es -> Forall (fun e => ~ is_subscribe_of (c, p, o) e) es ->
-  forall n, In n (all_ntfs (snd (run s' es))) -> nkey n <> (c, p, o).
+(* after an acknowledged cancellation (drained or not) nothing is sent to that subscriber until it subscribes again,
+   whatever is still in the deferred queue *)
+Theorem C16_no_notify_after_cancel : forall s e k s' out es,
+  inv s -> is_cancel_of k e -> step s e = (s', out) -> o_ack out = 1 ->
+  Forall wf_ev es -> Forall (fun e => ~ is_subscribe_of k e) es ->
+  forall n, In n (all_ntfs (snd (run s' es))) -> nkey n <> k.
 Proof. exact no_notify_after_cancel. Qed.
 Print Assumptions C16_no_notify_after_cancel.
 
@@ -112,7 +166,7 @@ Print Assumptions C16_table_unexpired.
 
 (* the activeCovSubscriptions list is the table: same keys in the same order, no duplicates, each with its
    mode and the time remaining of an unexpired entry *)
-Theorem C16_active_list_exact : forall s c s' out, inv s -> step s (ReadActive c) = (s', out) ->
+Theorem C16_active_list_exact : forall s c s' out, inv s -> (step s (ReadActive c) = (s', out) \/ step s (ReadNow c) = (s', out)) ->
   exists l, o_act out = Some l /\ map akey l = keys (subs s) /\ NoDup (map akey l) /\
     forall a, In a l -> exists x, In x (subs s) /\ akey a = key x /\ a_conf a = s_conf x /\
       match s_task x with
@@ -124,12 +178,27 @@ Print Assumptions C16_active_list_exact.
 
 (* ... and an entry leaves the table only by its own cancellation, replacement or expiry *)
 Theorem C16_subscription_persists : forall s e s' out x, inv s -> wf_ev e -> step s e = (s', out) ->
-  In x (subs s) -> ~ is_subscribe_of (key x) e ->
-  (forall c p o, e = Cancel c p o -> key x <> (c, p, o)) ->
+  In x (subs s) -> ~ is_subscribe_of (key x) e -> ~ is_cancel_of (key x) e ->
   (forall t, e = Advance t -> not_due_before x (now s + t)) ->
   In x (subs s').
 Proof. exact subscription_persists. Qed.
 Print Assumptions C16_subscription_persists.
+
+(* C16-F3 (known finding): the increment reference is per object and is moved by the initial notification of
+   somebody else.  Witness: increment 10.0; subscriber 2 is told 0.0 and nothing ever again, while the value creeps
+   8.0 at a time between (re)subscriptions of subscriber 3 and ends at 30.0 = three increments away. *)
+Definition f3_cfg : list obj := [mkObj0 8388609 KInc 0 0 40 0].
+Definition f3_events : list ev :=
+  [Subscribe 2 1 8388609 false (Some 0); Write 0 PPv 32; Subscribe 3 1 8388609 false (Some 0); Write 0 PPv 64;
+   Subscribe 3 1 8388609 false (Some 0); Write 0 PPv 96; Subscribe 3 1 8388609 false (Some 0); Write 0 PPv 120; Drain].
+Theorem C16_reference_reset_refuted :
+  NoDup (oids f3_cfg) /\ Forall wf_ev f3_events /\
+  let '(s, outs) := run (init f3_cfg) f3_events in
+  map n_pv (filter (fun n => n_cli n =? 2) (all_ntfs outs)) = [0] /\
+  option_map s_cli (find_sub 2 1 8388609 (subs s)) = Some 2 /\
+  map pv (objs s) = [120] /\ map inc (objs s) = [40] /\ queue s = [].
+Proof. split; [repeat constructor; cbn; intuition discriminate|]. split; [repeat constructor; cbn; lia|]. vm_compute. auto. Qed.
+Print Assumptions C16_reference_reset_refuted.
 
 (* ---- non-vacuity: a concrete device and timeline meeting the hypotheses *)
 Definition ex_av : Z := 8388609.          (* analogValue,1 *)
@@ -140,8 +209,18 @@ Example C16_ex_cfg_nodup : NoDup (oids ex_cfg).
 Proof. repeat constructor; cbn; intuition discriminate. Qed.
 Example C16_ex_events_wf : Forall wf_ev [Subscribe 2 1 ex_av true (Some 5); Subscribe 3 1 ex_av false None; Write 0 PPv 40; Advance 40].
 Proof. repeat constructor; cbn; lia. Qed.
-Example C16_ex_inv : inv ex_s1.
-Proof. apply C16_reachable_inv; [exact C16_ex_cfg_nodup|repeat constructor; cbn; lia]. Qed.
+Example C16_ex_inv : inv ex_s1 /\ idinv ex_s1 /\ qinv ex_s1.
+Proof.
+  apply C16_reachable_all; [exact (init_inv _ C16_ex_cfg_nodup)|split; constructor| |repeat constructor; cbn; lia].
+  apply init_q. repeat constructor.
+Qed.
+(* the stepped queue: a subscribe delivered between trigger and execute gets the change notification and then its
+   initial one; a cancel overtaking the deferred initial notification silences it *)
+Example C16_ex_stepped :
+  map (fun o => map canon_ntf (o_ntfs o))
+      (snd (run ex_s1 [SubscribeNow 4 1 ex_av true None; StepQ; StepQ; SubscribeNow 4 2 ex_av false None; CancelNow 4 2 ex_av; StepQ])) =
+  [[]; [[2; 1; ex_av; 1; 5; 40; 0]; [3; 1; ex_av; 0; 0; 40; 0]; [4; 1; ex_av; 1; 0; 40; 0]]; [[4; 1; ex_av; 1; 0; 40; 0]]; []; []; []].
+Proof. vm_compute. reflexivity. Qed.
 (* the write of exactly the increment is pending; the drain notifies both subscribers once, each in its mode,
    5 s and indefinite remaining *)
 Example C16_ex_round :
@@ -152,7 +231,7 @@ Example C16_ex_below_increment :
 Proof. vm_compute. reflexivity. Qed.
 Example C16_ex_cancel_acked : o_ack (snd (step ex_s1 (Cancel 2 1 ex_av))) = 1.
 Proof. vm_compute. reflexivity. Qed.
-Example C16_ex_expiry_task : option_map s_task (find_sub 2 1 ex_av (subs ex_s1)) = Some (Some (T0 + 40, 0)).
+Example C16_ex_expiry_task : option_map s_task (find_sub 2 1 ex_av (subs ex_s1)) = Some (Some (T0 + 40, 1)).
 Proof. vm_compute. reflexivity. Qed.
 (* advancing exactly onto the expiry removes the entry; the other one stays and is still served *)
 Example C16_ex_expired :
